@@ -228,7 +228,7 @@ impl Memfs {
         // Validate path components
         let dir = path.dir()?;
         if let Some(entry) = guard.get_entry(&dir) {
-            if !entry.is_dir() {
+            if !entry.is_dir() || entry.is_symlink() {
                 return Err(PathError::is_not_dir(dir).into());
             }
         } else {
@@ -537,7 +537,7 @@ impl Memfs {
     pub(crate) fn _is_dir<T: AsRef<Path>>(&self, guard: &MemfsGuard, path: T) -> bool {
         let abs = unwrap_or_false!(self._abs(guard, path));
         match guard.get_entry(&abs) {
-            Some(entry) => entry.is_dir(),
+            Some(entry) => !entry.is_symlink() && entry.is_dir(),
             None => false,
         }
     }
@@ -1596,7 +1596,7 @@ impl VirtualFileSystem for Memfs {
         // The destination's parent needs to be an existing directory
         let dst_parent = dst_first.dir()?;
         match guard.get_entry(&dst_parent) {
-            Some(x) if x.is_dir() => {},
+            Some(x) if x.is_dir() && !x.is_symlink() => {},
             Some(_) => return Err(PathError::is_not_dir(dst_parent).into()),
             None => return Err(PathError::does_not_exist(dst_parent).into()),
         }
